@@ -307,6 +307,10 @@ class Case:
     tier = "quick"  # 'thorough': too expensive for the per-change check; run by the thorough command only
     known_raises = {}  # exception class -> known-finding id: raised on the listed inputs although the property forbids it
     known = {}  # label -> {"id":..., "carve": lambda inp: cond}  known-finding carve-outs
+    # exception classes that MAY escape under any condition ('documented error' obligations of C19: the call either
+    # returns or raises one of these - the library's own exception hierarchy is matched by base class name);
+    # unlike ``raises`` no exact condition is claimed
+    may_raise = ()
     timeout_ms = 10000
 
     def inputs(self, S):  # pragma: no cover
